@@ -223,6 +223,8 @@ def facts : Facts := {
   rollbackOnFailedBuild := true
   buildProtocol := true
   unknownIndexProtocol := true
+  encodeForeignWriteSites := 0
+  encodeForeignWriteSiteList := []
   descriptorWriteSites := 0
   descriptorWriteSiteList := []
   hotPathHeapSites := 0
